@@ -117,6 +117,31 @@ EXTRA4 = {
 for k, v in EXTRA4.items():
     CLAIMS[k] = (CLAIMS[k][0] + v, CLAIMS[k][1])
 
+# rules added after the fifth round of independent breaking changes
+EXTRA5 = {
+ "C01": " A SELECT of the source reaches the generic forwarding only with a negative number (database 0 takes the database-decision branch).",
+ "C02": " Nothing is forwarded while the source is in a withheld database (shared with C10).",
+ "C03": " A key with an expiry is never replayed with ttl 0; the LZF control byte is split 3 + 5 bits; an intact snapshot entry is withheld only by the three filters.",
+ "C04": " The bidirectional snapshot builders never answer 'nothing to replay' on a path that has seen an expansion error; the policy word is one of the three the replay knows (shared with C20).",
+ "C05": " Written bytes are credited to the segment that holds them (reported before the writer can rotate); a finishing memory writer removes only its own empty segment; lock requirements of helpers are inferred from their uses.",
+ "C06": " The target's position is handed to the input under the id it is stored under; the start-up maintenance does not re-key the checkpoint before the source has answered.",
+ "C07": " A running output adopts a new replication id only after its checkpoint was moved; a failed look-up of the stored position surfaces as an error.",
+ "C09": " Transactional replay is the default in every replay mode.",
+ "C10": " Every snapshot entry that can be continued carries the source database; a slot range [l, r] is dropped only when l > r; an intact snapshot entry is withheld only when a filter rejected it.",
+ "C11": " On a cluster target the forced-slot mode is never selected.",
+ "C12": " Arguments queued in a transaction batcher are slices of their own; the reply reader makes zero-copy strings only of buffers it allocated.",
+ "C13": " A stand-alone command on the tool's own keys is always a control command; the key table marks no value position as a key.",
+ "C14": " Every valid mode has exactly one recovery format; sync mode executes a received unit once.",
+ "C15": " On the shared stand-alone connection a request and its reply are one critical section; a stand-alone client is the connection to the configuration as given.",
+ "C16": " The META frame carries the reader's own offset and size; the snapshot writer's size argument is read before the receiving goroutine exists.",
+ "C17": " The id is adopted after the checkpoint was moved; look-up errors surface; every command on the id-to-name index is issued with database 0 selected by the same function.",
+ "C18": " The relaxed slot mode only for non-cluster targets; keys one node resolved are used whatever another node answered; units are built from the filter's projection.",
+ "C19": " One node batch per node in a plain batch; after ASK the command's own answer is judged; a redirect answered to one pipelined request is not handed to the requests behind it.",
+ "C20": " The native fall-back of a failed RESTORE only for 'Bad data format', after a DEL when REPLACE was requested; every snapshot key the filters let through reaches the policy.",
+}
+for k, v in EXTRA5.items():
+    CLAIMS[k] = (CLAIMS[k][0] + v, CLAIMS[k][1])
+
 NOT_YET = "check not built yet in this revision (planned, see DESIGN.md section 3)"
 
 def main():
